@@ -8,9 +8,13 @@ which the code provides this is stated on the object graph:
 
   `Disjoint w`   no writable object is reachable from two different contexts           (what the Go
                  heap walk checks on the implementation after every scenario)
+  `DisjointR w`  … and none is reachable from a context and from the Globals of a registered
+                 implementation (the second kind of root of the Go heap walk)
   `Confined w`   the inductive form of it: a context's store and its own objects refer only to its
                  own objects and to frozen process-wide objects; frozen process-wide objects refer only
-                 to such; every implementation a context can still instantiate has only such globals.
+                 to such; every implementation a context can still instantiate has only globals that
+                 NewModule turns into such (`okGlobal`: immutable values, or lists / dicts of immutable
+                 values, which NewModule copies).
 -/
 import GPy.C08.Model
 namespace GPy.C08
@@ -32,6 +36,17 @@ def frozenAt (w : World) (r : Ref) : Prop := ∃ o, w.heap r = some o ∧ o.froz
 def Disjoint (w : World) : Prop :=
   ∀ a b r, a ≠ b → Reach w a r → Reach w b r → frozenAt w r
 
+/-- `r` is reachable from the Globals of a registered module implementation (the process-wide
+registry: what is reachable from there is what every later instantiation starts from) -/
+inductive RegReach (w : World) : Ref → Prop where
+  | root {impl kv r} : impl ∈ w.registry → kv ∈ impl.globals → kv.2 = Val.ref r → RegReach w r
+  | step {r r' o} : RegReach w r → w.heap r = some o → Val.ref r' ∈ o.vals → RegReach w r'
+
+/-- `Disjoint`, and no writable object is reachable from a context AND from the registry: exactly
+what the Go heap walk checks (roots: every context's store, every registered implementation's Globals) -/
+def DisjointR (w : World) : Prop :=
+  Disjoint w ∧ ∀ a r, Reach w a r → RegReach w r → frozenAt w r
+
 /-! ### the inductive invariant -/
 
 /-- a frozen process-wide object -/
@@ -47,6 +62,15 @@ def okShared (w : World) : Val → Prop
   | .ref r => sharedFrozen w r
   | _ => True
 
+/-- a value an implementation's Globals may hold: an immutable one, or – with the NewModule of the
+tree (fix d8887ef), which copies these – a process-wide list / dict of immutable values.  (A list
+inside a list, or a writable module / heap type / instance in Globals, is NOT ok: it would be shared.) -/
+def okGlobal (w : World) : Val → Prop
+  | .ref r => sharedFrozen w r ∨
+      (w.shallowGlobals = false ∧ r.owner = .shared ∧
+        ∃ o, w.heap r = some o ∧ o.kind.container = true ∧ o.frozen = false ∧ ∀ x ∈ o.vals, okShared w x)
+  | _ => True
+
 structure Confined (w : World) : Prop where
   /-- the store of a context holds its own module objects -/
   store : ∀ c s, w.stores c = some s → ∀ r ∈ s.roots, r.owner = .ctx c
@@ -56,9 +80,10 @@ structure Confined (w : World) : Prop where
       (a writable process-wide object is tolerated as long as nothing refers to it:
        the sys implementation's own `path` / `argv` lists, which NewContext replaces) -/
   shared : ∀ i o, w.heap ⟨.shared, i⟩ = some o → o.frozen = true → ∀ v ∈ o.vals, okShared w v
-  /-- every implementation that a context has not instantiated yet has immutable Globals -/
+  /-- every implementation that a context has not instantiated yet has Globals that NewModule turns
+      into values the context may hold (immutable, or a container it copies) -/
   impls : ∀ c s impl, w.stores c = some s → impl ∈ w.registry → s.modules.lookup impl.name = Option.none →
-            ∀ kv ∈ impl.globals, okShared w kv.2
+            ∀ kv ∈ impl.globals, okGlobal w kv.2
 
 /-! ### the reference: a context running alone -/
 
@@ -74,6 +99,7 @@ structure ViewEq (a : Nat) (w w' : World) : Prop where
   store : w.stores a = w'.stores a
   next : w.next a = w'.next a
   registry : w.registry = w'.registry
+  version : w.shallowGlobals = w'.shallowGlobals
   own : ∀ i, w.heap ⟨.ctx a, i⟩ = w'.heap ⟨.ctx a, i⟩
   shared : ∀ i, w.heap ⟨.shared, i⟩ = w'.heap ⟨.shared, i⟩
 
@@ -102,14 +128,19 @@ def isWritable (w : World) (r : Ref) : Bool :=
   | some o => !o.frozen
   | Option.none => false
 
-/-- writable objects reachable from two of the contexts `0 .. n-1` -/
+/-- what is reachable from the Globals of the registered implementations -/
+def regReachList (w : World) : List Ref :=
+  reachFrom w 100000 (w.registry.flatMap fun impl => impl.globals.filterMap fun kv =>
+    match kv.2 with | .ref r => some r | _ => Option.none) []
+
+/-- writable objects reachable from two of the roots: the contexts `0 .. n-1` and the registry (root `n`) -/
 def sharedWritable (w : World) (n : Nat) : List Ref := Id.run do
-  let reach := (List.range n).map (reachList w)
+  let reach := (List.range n).map (reachList w) ++ [regReachList w]
   let mut out : List Ref := []
-  for i in List.range n do
+  for i in List.range (n + 1) do
     for r in reach[i]! do
       if isWritable w r && !out.contains r then
-        if (List.range n).any (fun j => j != i && (reach[j]!).contains r) then out := r :: out
+        if (List.range (n + 1)).any (fun j => j != i && (reach[j]!).contains r) then out := r :: out
   return out
 
 /-- `module.global` slots (over all contexts) that hold the object directly -/
@@ -145,7 +176,7 @@ def walkResult (w : World) (n : Nat) : String × String :=
     let nested := (slots.filter (·.isEmpty)).length
     ("shared", ",".intercalate direct ++ (if nested > 0 then s!"+nested:{nested}" else ""))
 
-/-! ### known finding C08-K01 -/
+/-! ### finding C08-K01 (fixed by d8887ef; the predicates still delimit where the pre-fix code leaked) -/
 
 def Path.mentions (p : Path) (root attr : String) : Bool :=
   p.root = root && p.sels.head? = some (.attr attr)
